@@ -107,7 +107,7 @@ class History:
         big = self.size == 'big'
         self.users = list(range(2, 2 + (r.randint(3, 9) if big else r.randint(1, 6))))
         # guarantee stress: few base winners among many tickets, so that guarantees decide who wins
-        self.stress = (v in V1 or v == 'gt2') and r.random() < 0.3
+        self.stress = (v in V1 or v == 'gt2') and r.random() < 0.4
         if self.stress:
             self.users = list(range(2, 2 + r.randint(3, 6)))
         self.snap_addrs = [OWNER] + self.users + [SUPPORT, STRANGERS[0], SC_CALLERS[0]]
